@@ -162,6 +162,9 @@ def _body_lev(shape, shape2, mode):
             dists = [hc.lev_term(seqs[i], seqs[j]) for i in range(len(seqs)) for j in range(i + 1, len(seqs))]
         else:
             dists = [hc.lev_term(a, b) for a in seqs for b in seqs2]
+        def narrowing():
+            from models import rf_model
+            return [kw for name, kw in rf_model.CALLS if name == "cdist" and (kw["dtype"] is not None or kw["score_cutoff"] is not None)]
         if mode == "bins0":
             got = distance.pcDelta(seqs, seqs2, bins=0)
             want = stats.pc(seqs, seqs2)
@@ -170,6 +173,8 @@ def _body_lev(shape, shape2, mode):
             return so.b_and(so.close(got, want, 1e-12), so.close(so.mul(got, den), same, 1e-9)), (lambda: f"pcDelta(bins=0) = {got!r}, pc = {want!r}")
         got = distance.pcDelta(seqs, seqs2, normalize=False) if mode == "default" else distance.pcDelta(seqs, seqs2, normalize=False, bins=np_model.arange(0, 4))
         nb = 24 if mode == "default" else 3
+        if narrowing():
+            return False, f"the default metric hands narrowing options to rapidfuzz.process.cdist: {narrowing()}"
         if len(got) != nb:
             return False, f"{len(got)} bins"
         conds = []
@@ -196,7 +201,12 @@ def _replay_lev(shape, shape2, mode):
         bins = np.arange(0, 25) if mode == "default" else np.arange(0, 4)
         got = distance.pcDelta(seqs, seqs2, normalize=False) if mode == "default" else distance.pcDelta(seqs, seqs2, normalize=False, bins=bins)
         want, _ = np.histogram(d, bins=bins)
-        return list(got) == list(want), f"pcDelta({seqs!r}, {seqs2!r}, normalize=False, {mode}) = {list(got)} expected {list(want)}"
+        if list(got) != list(want):
+            return False, f"pcDelta({seqs!r}, {seqs2!r}, normalize=False, {mode}) = {list(got)} expected {list(want)}"
+        # real-library probe: distances beyond 255 must land in their own bin (no wrap-around in the default string metric)
+        longs = ["A" * 300, "C" * 300, "A" * 300]
+        lg = distance.pcDelta(longs, normalize=False, bins=[0, 1, 300, 301])
+        return list(lg) == [1, 0, 2], f"pcDelta of three 300-letter strings (distances 0, 300, 300) over bins [0,1,300,301] = {list(lg)}, expected [1, 0, 2]"
     return replay
 
 
